@@ -293,6 +293,8 @@ def check(report: common.Report, prop: str):
 
 def check_C05(report):
     check(report, 'C05')
+    from . import maintconf  # pylint: disable=import-outside-toplevel
+    maintconf.check(report)  # the recorded step sequences of the maintenance operations are DosMaint's programs
 
 
 def check_C06(report):
